@@ -17,6 +17,9 @@ pub fn main() {
   match args[1].as_str() {
     "tmpl-all" => tmpl_all(),
     "replay-isa" => replay_isa(&args[2..]),
+    "replay-strs" => replay_strs(&args[2..]),
+    #[cfg(unix)]
+    "replay-serial" => replay_serial(&args[2..]),
     #[cfg(unix)]
     "replay-jit" => crate::native_jit::replay_jit(&args[2..]),
     #[cfg(unix)]
@@ -76,4 +79,49 @@ fn replay_isa(a: &[String]) {
     },
     Err(_) => println!("{{\"engine\":\"isa\",\"panicked\":true,\"failed_checks\":[\"the real interpreter panicked on this input\"]}}"),
   }
+}
+
+
+/// replay-strs <hex bytes of the token>: the real debug::command::parse_address on the verifier's token
+fn replay_strs(args: &[String]) {
+  let bytes = hexbytes(args.get(0).map(|s| s.as_str()).unwrap_or(""));
+  let tok = match std::str::from_utf8(&bytes) { Ok(t) => t.to_string(), Err(_) => { println!("{{\"error\":\"token is not UTF-8\"}}"); return; } };
+  std::panic::set_hook(Box::new(|_| {}));
+  let r = std::panic::catch_unwind(|| crate::debug::command::parse_address(&tok));
+  let want = if bytes.len() >= 2 && bytes[0] == b'0' && bytes[1] == b'x' { crate::misc::spec_hex(&bytes[2..]) } else { crate::misc::spec_dec(&bytes) };
+  let ascii = bytes.iter().all(|b| *b < 0x80 && *b > b' ' && *b != b'+');
+  let mut failed: Vec<&str> = vec![];
+  match &r {
+    Err(_) => failed.push("C20: parse_address panicked (command parsing must return a result for every input)"),
+    Ok(v) => if ascii && *v != want { failed.push("C20: parsed value differs from the reference"); },
+  }
+  println!("{{\"token_hex\":\"{}\",\"real_result\":\"{}\",\"reference\":\"{:?}\",\"failed_checks\":[{}]}}",
+    args.get(0).cloned().unwrap_or_default(), match &r { Ok(v) => format!("{:?}", v), Err(_) => "panic".to_string() }, want,
+    failed.iter().map(|f| format!("\"{}\"", f)).collect::<Vec<_>>().join(","));
+}
+
+/// replay-serial <d0> <c0> <d> <v>: the real SerialComms with fd 1 redirected to a pipe; what reaches the host stream
+#[cfg(unix)]
+fn replay_serial(args: &[String]) {
+  use std::io::Write;
+  let v: Vec<u8> = args.iter().map(|a| a.parse::<u64>().unwrap_or(0) as u8).collect();
+  if v.len() < 4 { println!("{{\"error\":\"need 4 values\"}}"); return; }
+  let (d0, c0, d, ctl) = (v[0], v[1], v[2], v[3]);
+  let _ = std::io::stdout().flush();
+  let mut fds = [0i32; 2];
+  let saved;
+  unsafe { libc::pipe(fds.as_mut_ptr()); saved = libc::dup(1); libc::dup2(fds[1], 1); }
+  let mut s = crate::devices::serial::SerialComms::new();
+  s.set_data(d0); s.set_control(c0 & 0x7f); s.set_data(d); s.set_control(ctl);
+  let _ = std::io::stdout().flush();
+  let mut buf = [0u8; 64];
+  let n;
+  unsafe { libc::dup2(saved, 1); libc::close(fds[1]); libc::close(saved);
+    let fl = libc::fcntl(fds[0], libc::F_GETFL); libc::fcntl(fds[0], libc::F_SETFL, fl | libc::O_NONBLOCK);
+    let r = libc::read(fds[0], buf.as_mut_ptr() as *mut libc::c_void, 64); n = if r < 0 { 0 } else { r as usize }; libc::close(fds[0]); }
+  let want: Vec<u8> = if ctl & 0x80 != 0 { vec![d] } else { vec![] };
+  let got = &buf[..n];
+  let ok = got == &want[..];
+  println!("{{\"inputs\":{{\"latch_before\":{},\"control_before\":{},\"data\":{},\"control\":{}}},\"emitted\":{:?},\"expected\":{:?},\"failed_checks\":[{}]}}",
+    d0, c0 & 0x7f, d, ctl, got, want, if ok { String::new() } else { "\"C18: the bytes on the host stream are not exactly the latched data byte\"".to_string() });
 }
